@@ -92,23 +92,31 @@ def batched(kind, K, B, grad_group=None, int_caller=False, caller_has_batch_shap
                         [cls, PR + "_update_eq_params_dict", PR + "_get_vmap_in_axes_params"])
 
 
-def observed_and_batched(kind, B):
-    """the batch carries 'b' per sample and the observations carry 'a' per observation"""
+def observed_and_batched(kind, B, same_key=False):
+    """the batch carries 'b' per sample and the observations carry 'a' per observation; same_key: the batch carries 'a'
+    per sample too (other rows): the collocation terms use the batch rows, the observation term the observed rows"""
     def build():
         S = Scen(kind, B=B)
-        extra = [Inp("acol", (B, 1)), Inp("bcol", (B, 1))]
+        extra = [Inp("acol", (B, 1)), Inp("bcol", (B, 1)), Inp("a2col", (B, 1))]
         names = S.names(extra=extra)
         def fn(*args):
             a = dict(zip(names, args))
-            loss, params, batch = S.loss_batch(a, param_batch={"b": a["bcol"]}, obs_eq={"a": a["acol"]}, on=ON[kind])
+            pb = {"b": a["bcol"]}
+            if same_key:
+                pb["a"] = a["a2col"]
+            loss, params, batch = S.loss_batch(a, param_batch=pb, obs_eq={"a": a["acol"]}, on=ON[kind])
             return [loss.evaluate(params, batch)[1][t] for t in ON[kind]]
         def spec(*args, wrong=False):
             s = dict(zip(names, args))
             ao = [s["acol"][i, 0] for i in range(B)]
-            sp = S.term_specs(s, b_rows=[s["bcol"][i, 0] for i in range(B)], a_obs=ao[::-1] if wrong else ao, on=ON[kind])
+            a2 = [s["a2col"][i, 0] for i in range(B)]
+            if same_key and wrong:
+                ao = a2
+            sp = S.term_specs(s, a_rows=a2 if same_key else None, b_rows=[s["bcol"][i, 0] for i in range(B)],
+                              a_obs=ao[::-1] if (wrong and not same_key) else ao, on=ON[kind])
             return [arr(lambda _, t=t: sp[t], ()) for t in ON[kind]]
         return dict(fn=fn, spec=spec, canary=lambda *z: spec(*z, wrong=True), inputs=S.inputs(extra=extra))
-    return EqObligation(f"C12/evaluate/ensures.param_batch_and_observed_param[{kind},B={B}]", build,
+    return EqObligation(f"C12/evaluate/ensures.param_batch_and_observed_param[{kind},B={B}{',same_key_in_both' if same_key else ''}]", build,
                         [PR + "_update_eq_params_dict", PR + "_get_vmap_in_axes_params"])
 
 
@@ -206,6 +214,7 @@ def obligations(tier):
         obs.append(batched(kind, ("a",), 2, matrix_b=True))            # an unbatched matrix next to a batched scalar
         obs.append(batched(kind, ("b",), 3 if tier == "thorough" else 2, flat=True))
         obs.append(observed_and_batched(kind, 2))
+        obs.append(observed_and_batched(kind, 2, same_key=True))
         for declared in ({"a": "h"}, {"b": "h", "a": None}, {}, {"a": "h", "b": "h"}):
             obs.append(hetero(kind, declared, "evaluate"))
         obs.append(hetero(kind, {"a": "h"}, "loss"))
